@@ -524,10 +524,11 @@ SPECS["C07"] = ("""property C07: filter JSON parsing is faithful, order-independ
    for every list of distinct members in any order (including explicitly empty arrays and a limit above
    2^32-1), in the library's spelling, the parse is the canonical encoding of the filter they denote, and
    two texts whose members are permutations of each other (tag fields in the same relative order, which is
-   the order of the encoded tags) give identical bytes.  Faithfulness on texts with whitespace, alternative
-   escapes, unknown members and duplicates is decided per run by the differential check (all 52x52 letter
+   the order of the encoded tags) give identical bytes; the member lists may contain ANY NUMBER OF UNKNOWN
+   MEMBERS with arbitrary JSON values (skipped, state untouched).  Faithfulness on texts with whitespace,
+   alternative escapes and duplicates is decided per run by the differential check (all 52x52 letter
    pairs, member orders, escapes, boundaries; python json as independent parser).""",
-  CODIMP + "\nFrom Coq Require Import Permutation.\nFrom Pocket Require Import EscapeRoundTrip JsonRoundTrip FilterRoundTrip FilterAnyOrder.", [
+  CODIMP + "\nFrom Coq Require Import Permutation.\nFrom Pocket Require Import EscapeRoundTrip JsonRoundTrip FilterRoundTrip JsonSkip FilterAnyOrder.", [
   ("C07_integer_value_partial",
    "forall l, read_u64 l = let '(ds, rest) := span_digits l in\n    match ds with [] => Err EJson | _ => if num_of ds <=? 18446744073709551615 then Ok (num_of ds, rest) else Err EJson end",
    "read_u64_spec", ""),
@@ -537,11 +538,36 @@ SPECS["C07"] = ("""property C07: filter JSON parsing is faithful, order-independ
    "filter_json_roundtrip", "EVERY filter whose tag letters are distinct ASCII letters, whose ids/authors are 32 bytes, kinds < 2^16, numbers within their widths and strings valid UTF-8: Filter::from_json reads Filter::as_json's text back to exactly the canonical binary encoding, consuming the whole text and leaving the rest of the buffer untouched"),
   ("C07_any_member_order",
    "forall ms tail out, members_wf ms -> filter_size (filter_of ms) <= len out ->\n    filter_from_json (members_text ms tail) out\n    = Ok (len (members_text ms tail) - len tail, enc_filter (filter_of ms), enc_filter (filter_of ms) ++ drop (filter_size (filter_of ms)) out)",
-   "filter_any_order", "EVERY list of distinct members (ids/authors/kinds arrays incl. empty ones, limit/since/until < 2^64, one field per tag letter) in ANY order, whatever follows the closing brace: the parse consumes exactly the object and writes the canonical encoding of the denoted filter (absent members take the defaults, limit saturates at 2^32-1, tag fields keep their textual order)"),
+   "filter_any_order", "EVERY list of distinct members (ids/authors/kinds arrays incl. empty ones, limit/since/until < 2^64, one field per tag letter, and UNKNOWN members - keys the parser does not know with any JSON value nested up to depth 128) in ANY order, whatever follows the closing brace: the parse consumes exactly the object and writes the canonical encoding of the denoted filter (absent members take the defaults, limit saturates at 2^32-1, tag fields keep their textual order)"),
+  ("C07_plain_keys_are_unknown",
+   "forall k, Forall (fun c => c <> 34 /\\ c <> 92) k -> ~ In k filter_names ->\n    (forall L, is_letter L = true -> k <> [35; L]) -> unknown_fkey k",
+   "plain_unknown_fkey", "every key without quote or backslash other than the six names and the #<letter> keys (incl. search, #ee, #1, id, kind) is an unknown member"),
   ("C07_order_independent",
    "forall ms ms' tail tail' out, members_wf ms -> Permutation ms ms' -> tags_of ms = tags_of ms' ->\n    filter_size (filter_of ms) <= len out ->\n    exists c c' enc buf, filter_from_json (members_text ms tail) out = Ok (c, enc, buf) /\\\n                         filter_from_json (members_text ms' tail') out = Ok (c', enc, buf)",
    "filter_order_independent", "two texts with the same members in different orders give the same bytes"),
   ], """
+(* non-vacuity with unknown members: a NIP-50 search member, a two-letter #ee key with a nested value *)
+Example C07_unknown_example :
+  let te : tagspec := (101, ([[97; 34]; []], [[97; 92; 34]; []])) in
+  let u1 := MUnk [115; 101; 97; 114; 99; 104] (JStr [120; 32; 121]) in
+  let u2 := MUnk [35; 101; 101] (JArr [JNum [49]; JObj [([107], JNull)]]) in
+  let ms := [u1; MUntil 99; MTag te; u2; MKinds [1; 30023]; MIds [repeat 1 32]] in
+  members_wf ms /\\
+  filter_from_json (members_text ms [1; 2]) (repeat 170 (N.to_nat (filter_size (filter_of ms)) + 3))
+  = Ok (len (members_text ms [1; 2]) - 2, enc_filter (filter_of ms), enc_filter (filter_of ms) ++ [170; 170; 170]).
+Proof.
+  cbv zeta. split.
+  - unfold members_wf. refine (conj _ (conj _ _)).
+    + assert (R : forall b n, b < 256 -> wf_bytes (repeat b n)) by (intros b n Hb; apply Forall_forall; intros x Hx; apply repeat_spec in Hx; subst x; exact Hb).
+      assert (P : forall key, Forall (fun c => c <> 34 /\\ c <> 92) key -> skippable_str key) by exact plain_skippable.
+      repeat constructor; cbn; try lia; try (apply R; lia); try (apply P; repeat constructor; lia);
+        try (intros rest; repeat split; reflexivity); try (intros K; reflexivity).
+      * exists [97; 34]. split; [repeat constructor; unfold scalar; lia|reflexivity].
+      * exists []. split; [constructor|reflexivity].
+    + repeat constructor; cbn; intuition discriminate.
+    + repeat apply conj; vm_compute; reflexivity.
+  - vm_compute. reflexivity.
+Qed.
 (* non-vacuity of order independence: six members, a saturating limit, trailing bytes after the object *)
 Example C07_order_example :
   let te : tagspec := (101, ([[97; 34]; []], [[97; 92; 34]; []])) in
